@@ -2,7 +2,7 @@
    Theorem statements only; proofs in Proofs/ConsumerStop.v (stop), ConsumerC13.v / ConsumerC13Top.v (start Deferred).
    Model: Model/Consumer.v (afkak/consumer.py:290-1131).  Never weaken a statement here. *)
 From AV Require Import Base.Util Model.Consumer Proofs.ConsumerBase Proofs.ConsumerFrame Proofs.ConsumerC13
-  Proofs.ConsumerStop Proofs.ConsumerC13Top Proofs.ConsumerInv Proofs.ConsumerShut Proofs.ConsumerRun.
+  Proofs.ConsumerStop Proofs.ConsumerStopOk Proofs.ConsumerC13Top Proofs.ConsumerInv Proofs.ConsumerShut Proofs.ConsumerRun.
 Open Scope Z_scope.
 
 (* In EVERY state in which stop() can be called (not already inside stop(), not inside the auto-commit timer callback
@@ -26,6 +26,17 @@ Print Assumptions C13_quiescent_after_stop.
 Theorem C13_stopping_inert : forall fuel k s r s' o, run fuel k s = (r, s', o) -> Post3 k s r s' o.
 Proof. exact run_stop. Qed.
 Print Assumptions C13_stopping_inert.
+
+(* stop() never makes the start Deferred FAIL: the cancellations it causes are not failures of the consumer (F-C13-4 was
+   exactly that).  For every execution of stop() - nested or not - entered with _stopping clear, in EVERY state. *)
+Theorem C13_stop_never_fails_start : forall fuel s r s' o,
+  run fuel KStop s = (r, s', o) -> fuel_ok o = true -> s_stopping s = false -> forallb nf1 o = true.
+Proof. exact stop_nofail. Qed.
+Print Assumptions C13_stop_never_fails_start.
+Theorem C13_stop_step_never_fails_start : forall fuel s s' o,
+  s_stopping s = false -> step fuel s EStop = (s', o) -> fuel_ok o = true -> forall k, ~ In (OStartD false k) o.
+Proof. exact stop_step_nofail. Qed.
+Print Assumptions C13_stop_step_never_fails_start.
 
 (* ... and stays so: no event other than start() (or a commit() the application makes by hand) produces any activity *)
 Theorem C13_quiescent_closed : forall fuel s e s' o,
